@@ -49,6 +49,24 @@ func (core *JApiCore) addDirective(d *directive.Directive) *jerr.JApiError {
 	return f(d)
 }
 
+// addTags checks a Tags directive where it stands: the tags it names must be declared
+// and it must be the only Tags of its parent. (Which tags a method gets is decided when
+// the method is added; a Tags directive that no method happens to read - a second one, or
+// the URL's when every method has its own - was never looked at.)
+func (core JApiCore) addTags(d *directive.Directive) *jerr.JApiError {
+	if d.Parent != nil {
+		for _, sibling := range d.Parent.Children {
+			if sibling == d {
+				break
+			}
+			if sibling.Type() == directive.Tags {
+				return d.KeywordError(jerr.NotUniqueDirective)
+			}
+		}
+	}
+	return core.catalog.CheckTags(d)
+}
+
 func (core JApiCore) addJSight(d *directive.Directive) *jerr.JApiError {
 	version := d.NamedParameter("Version")
 	if version == "" {
